@@ -10,33 +10,33 @@ open BV.Bits BV.MetaBlock BV.Huffman BV.PrefixArith BV.Recoder
 open BV.Lemmas.HuffmanRead (takeBits_bitsOf)
 
 /-- the writer's tables `D`/`B` and the reader's code `C` agree on table index `idx` ↦ symbol `sym`:
-the code word fits its length (≤ 15) and the reader decodes it to `sym`, stopping behind it -/
+the code word fits its length (≤ 56, the limit of one `BrotliWriteBits`) and the reader decodes it to `sym`, stopping behind it -/
 structure SymOK (D B : List Nat) (C : Code) (idx sym : Nat) : Prop where
   hD : idx < D.length
   hB : idx < B.length
-  d15 : D.getD idx 0 ≤ 15
+  d56 : D.getD idx 0 ≤ 56
   fit : B.getD idx 0 < 2 ^ D.getD idx 0
   rd : ∀ rest, C.read (bitsOf (D.getD idx 0) (B.getD idx 0) ++ rest) = some (sym, rest)
 
 theorem writeSym_ok (D B : List Nat) (C : Code) (idx sym : Nat) (h : SymOK D B C idx sym) (s : Sto)
-    (hg : Good s) (hr : (s.ix + 15) / 8 + 8 ≤ s.bytes.size) :
+    (hg : Good s) (hr : (s.ix + 56) / 8 + 8 ≤ s.bytes.size) :
     ∃ s', (getAt D idx >>= fun d => getAt B idx >>= fun b => writeBits d b s) = .ok s' ∧
       Wr s s' (bitsOf (D.getD idx 0) (B.getD idx 0)) := by
-  have hd := h.d15
+  have hd := h.d56
   obtain ⟨s', e, w⟩ := writeBits_ok (D.getD idx 0) (B.getD idx 0) s hg h.fit (by omega) (by omega)
   refine ⟨s', ?_, w⟩
   rw [getAt_getD D idx h.hD, bind_ok', getAt_getD B idx h.hB, bind_ok', e]
 
 theorem storeLits_ok (litD litB : List Nat) (litC : Code) : ∀ (bs : List Nat) (s : Sto), Good s →
-    (s.ix + 16 * bs.length) / 8 + 8 ≤ s.bytes.size → (∀ b ∈ bs, SymOK litD litB litC b b) →
-    ∃ s' lb, storeLits litD litB bs s = .ok s' ∧ Wr s s' lb ∧ lb.length ≤ 15 * bs.length ∧
+    (s.ix + 57 * bs.length) / 8 + 8 ≤ s.bytes.size → (∀ b ∈ bs, SymOK litD litB litC b b) →
+    ∃ s' lb, storeLits litD litB bs s = .ok s' ∧ Wr s s' lb ∧ lb.length ≤ 56 * bs.length ∧
       ∀ acc rest, readLiterals litC bs.length acc (lb ++ rest) = some (acc ++ bs, rest)
   | [], s, hg, _, _ => ⟨s, [], rfl, Wr.refl s hg, by simp, by intro acc rest; simp [readLiterals]⟩
   | b :: bs, s, hg, hr, hs => by
     simp only [List.length_cons] at hr
     have hb := hs b (by simp)
     obtain ⟨s1, e1, w1⟩ := writeSym_ok litD litB litC b b hb s hg (by omega)
-    have hl1 : (bitsOf (litD.getD b 0) (litB.getD b 0)).length ≤ 15 := by rw [length_bitsOf]; exact hb.d15
+    have hl1 : (bitsOf (litD.getD b 0) (litB.getD b 0)).length ≤ 56 := by rw [length_bitsOf]; exact hb.d56
     have i1 := w1.ix
     obtain ⟨s2, lb, e2, w2, hl2, r2⟩ := storeLits_ok litD litB litC bs s1 w1.good
       (by rw [i1, w1.size]; omega) (fun x hx => hs x (by simp [hx]))
@@ -91,12 +91,12 @@ theorem ne_len : kNumExtraBits.length = 128 := by decide +kernel
 theorem loop_step_plain (litD litB cmdD cmdB : List Nat) (C : Code) (cmd sym : Nat) (cs lits : List Nat) (s : Sto)
     (hc24 : 24 ≤ cmd % 256) (hc128 : cmd % 256 < 128) (hs : SymOK cmdD cmdB C (cmd % 256) sym)
     (hne : kNumExtraBits.getD (cmd % 256) 0 ≤ 24) (hex : cmd / 256 < 2 ^ kNumExtraBits.getD (cmd % 256) 0)
-    (hg : Good s) (hr : (s.ix + 40) / 8 + 8 ≤ s.bytes.size) :
+    (hg : Good s) (hr : (s.ix + 81) / 8 + 8 ≤ s.bytes.size) :
     ∃ s1, storeCmdLoop litD litB cmdD cmdB (cmd :: cs) lits s = storeCmdLoop litD litB cmdD cmdB cs lits s1 ∧
       Wr s s1 (bitsOf (cmdD.getD (cmd % 256) 0) (cmdB.getD (cmd % 256) 0) ++
-        bitsOf (kNumExtraBits.getD (cmd % 256) 0) (cmd / 256)) ∧ s1.ix ≤ s.ix + 39 := by
+        bitsOf (kNumExtraBits.getD (cmd % 256) 0) (cmd / 256)) ∧ s1.ix ≤ s.ix + 80 := by
   obtain ⟨s1, e1, w1⟩ := writeSym_ok cmdD cmdB C _ sym hs s hg (by omega)
-  have hd := hs.d15
+  have hd := hs.d56
   have i1 : s1.ix = s.ix + cmdD.getD (cmd % 256) 0 := by rw [w1.ix, length_bitsOf]
   obtain ⟨s2, e2, w2⟩ := writeBits_ok _ (cmd / 256) s1 w1.good hex (by omega) (by rw [i1, w1.size]; omega)
   have i2 : s2.ix = s1.ix + kNumExtraBits.getD (cmd % 256) 0 := by rw [w2.ix, length_bitsOf]
@@ -115,16 +115,16 @@ theorem loop_step_ins (litD litB cmdD cmdB : List Nat) (C litC : Code) (cmd sym 
     (hins : kInsertOffset.getD (cmd % 256) 0 + cmd / 256 ≤ lits.length)
     (hl : ∀ b ∈ lits, SymOK litD litB litC b b)
     (hg : Good s)
-    (hr : (s.ix + 40 + 16 * (kInsertOffset.getD (cmd % 256) 0 + cmd / 256)) / 8 + 8 ≤ s.bytes.size) :
+    (hr : (s.ix + 81 + 57 * (kInsertOffset.getD (cmd % 256) 0 + cmd / 256)) / 8 + 8 ≤ s.bytes.size) :
     ∃ s1 lb, storeCmdLoop litD litB cmdD cmdB (cmd :: cs) lits s =
         storeCmdLoop litD litB cmdD cmdB cs (lits.drop (kInsertOffset.getD (cmd % 256) 0 + cmd / 256)) s1 ∧
       Wr s s1 (bitsOf (cmdD.getD (cmd % 256) 0) (cmdB.getD (cmd % 256) 0) ++
         (bitsOf (kNumExtraBits.getD (cmd % 256) 0) (cmd / 256) ++ lb)) ∧
-      s1.ix ≤ s.ix + 39 + 15 * (kInsertOffset.getD (cmd % 256) 0 + cmd / 256) ∧
+      s1.ix ≤ s.ix + 80 + 56 * (kInsertOffset.getD (cmd % 256) 0 + cmd / 256) ∧
       ∀ acc rest, readLiterals litC (kInsertOffset.getD (cmd % 256) 0 + cmd / 256) acc (lb ++ rest)
         = some (acc ++ lits.take (kInsertOffset.getD (cmd % 256) 0 + cmd / 256), rest) := by
   obtain ⟨s1, e1, w1⟩ := writeSym_ok cmdD cmdB C _ sym hs s hg (by omega)
-  have hd := hs.d15
+  have hd := hs.d56
   have i1 : s1.ix = s.ix + cmdD.getD (cmd % 256) 0 := by rw [w1.ix, length_bitsOf]
   obtain ⟨s2, e2, w2⟩ := writeBits_ok _ (cmd / 256) s1 w1.good hex (by omega) (by rw [i1, w1.size]; omega)
   have i2 : s2.ix = s1.ix + kNumExtraBits.getD (cmd % 256) 0 := by rw [w2.ix, length_bitsOf]
